@@ -3,38 +3,50 @@ package main
 import (
 	"fmt"
 	"go/ast"
-	"go/parser"
 	"go/token"
 	"path/filepath"
+	"sort"
 	"strconv"
 	"strings"
 )
 
 // ---------------------------------------------------------------------------------------------
-// launch: the order of the launcher's actions in daemon/daemon.go func launch.
+// launch: the order of the launcher's actions in package daemon, func launch.
 //
-//	signal.Notify(ch, …)                       ANotify      (handler installed: SIGINT goes to ch)
-//	cmd.Start()                                AStart       (the daemon process exists)
-//	binary.Write(os.Stdout, …) / os.Stdout.W…  AWritePid
-//	go func() { … cmd.Wait() … }()             ASpawnWait
-//	select { case <-ch: … }                    ASelect      (must receive from the Notify channel)
+//	signal.Notify(ch, sig…)   ANotify            ch made in launch with a literal capacity >= 1 (capacity 0:
+//	                                             ANotifyUnbuffered); the signals must include what Done() sends
+//	x.Start()                 AStart             (the daemon process exists)
+//	any write to os.Stdout    AWritePid          binary.Write(os.Stdout, …), os.Stdout.Write(…), fmt.Fprint(os.Stdout, …)
+//	go func(){ … x.Wait() … ; close(c) | c <- … }()   ASpawnWait   (c is the "finished" channel)
+//	select { case <-ch: case <-c: }              ASelect     every case must receive from ch or c
 //
-// Statements are walked in source order, branches in place (the error branch of `if err :=
-// cmd.Start()` only reports and returns). Bookkeeping that cannot change the order of these
-// actions (make, exec.Command, append, os.Environ, conversions, close, os.Stderr.Write,
-// signal.Stop, err.Error, the verifPause hook) is ignored. Everything else is an AUnknown entry,
-// and so is every recognised shape that is missing: the model's well-formedness check then fails.
+// Statements are walked in source order, branches in place; functions of the same package called from
+// launch are inlined (parameters that are plain identifiers are renamed to the caller's names).
+// Calls that cannot affect the hand-shake are not actions and are listed in a comment of the output:
+// fmt.*, encoding/binary.*, strings/strconv/bytes/errors.*, writes to os.Stderr, sync/atomic operations,
+// make/append/len/…, exec.Command and os.Environ (building the command), conversions, err.Error(), the
+// verifPause hook, deferred signal.Stop. Everything else — in particular anything of os/signal, os/exec,
+// *exec.Cmd (fields other than Env/Dir/Args included), *os.Process, syscall, os.Exit, panic, time, other
+// go statements, channel operations outside the select, select cases that cannot be matched — is an
+// AUnknown entry, and so is every recognised shape that is missing: the model's well-formedness check fails.
 // ---------------------------------------------------------------------------------------------
 
 type launchScan struct {
 	fset           *token.FileSet
+	funcs          map[string]*ast.FuncDecl // plain functions of the package
+	atomicVars     map[string]bool          // package-level variables of a sync/atomic type
 	acts           []string
+	ignored        map[string]bool
 	notifyChan     string
+	notifySeen     bool
 	notifySigs     []string          // signals given to signal.Notify, normalised; empty = all signals
-	finishedChan   string            // channel closed by the goroutine that waits for the daemon
+	finishedChan   string            // channel the waiting goroutine closes / sends on
 	chanCap        map[string]string // channel variable -> capacity expression of its make ("" = unbuffered)
+	cmdVars        map[string]bool   // variables bound to exec.Command(...)
 	hookAfterStart bool
 	sawStart       bool
+	rename         []map[string]string // per inlined call: callee name -> caller name
+	stack          []string
 }
 
 // sigName normalises a signal expression: os.Interrupt and syscall.SIGINT are the same signal.
@@ -68,7 +80,19 @@ func coqString(s string) string {
 
 func (l *launchScan) unknown(n ast.Node, what string) {
 	p := l.fset.Position(n.Pos())
-	l.acts = append(l.acts, "AUnknown "+coqString(fmt.Sprintf("%s (line %d)", what, p.Line)))
+	l.acts = append(l.acts, "AUnknown "+coqString(fmt.Sprintf("%s (%s:%d)", what, filepath.Base(p.Filename), p.Line)))
+}
+
+// canon: the caller's name of a (channel / command) variable inside inlined functions
+func (l *launchScan) canon(name string) string {
+	for i := len(l.rename) - 1; i >= 0; i-- {
+		if n, ok := l.rename[i][name]; ok {
+			name = n
+		} else {
+			break
+		}
+	}
+	return name
 }
 
 func callName(e ast.Expr) string {
@@ -91,25 +115,48 @@ func callName(e ast.Expr) string {
 	return fmt.Sprintf("<%T>", e)
 }
 
-var launchIgnored = map[string]bool{
-	"make": true, "append": true, "len": true, "cap": true, "close": true, "new": true,
-	"exec.Command": true, "os.Environ": true, "os.Stderr.Write": true, "os.Stderr.WriteString": true,
-	"err.Error": true, "verifPause": true, "<conversion>": true,
+var launchIgnoredExact = map[string]bool{
+	"make": true, "append": true, "len": true, "cap": true, "new": true, "copy": true, "min": true, "max": true,
+	"exec.Command": true, "os.Environ": true, "os.Getenv": true, "os.LookupEnv": true, "os.Getpid": true,
+	"verifPause": true, "<conversion>": true,
 	"uint32": true, "uint64": true, "int": true, "int32": true, "int64": true, "uint": true, "string": true, "byte": true,
-	"strconv.Itoa": true, "os.Getpid": true,
+	"uint8": true, "uint16": true, "int8": true, "int16": true, "error": true,
 }
 
-func mentionsStdout(call *ast.CallExpr) bool {
+var launchIgnoredPrefix = []string{"fmt.", "binary.", "strings.", "strconv.", "bytes.", "errors.", "atomic.", "os.Stderr.", "slices.", "maps."}
+
+func mentions(n ast.Node, pkg, sel string) bool {
 	found := false
-	ast.Inspect(call, func(n ast.Node) bool {
-		if se, ok := n.(*ast.SelectorExpr); ok {
-			if id, ok := se.X.(*ast.Ident); ok && id.Name == "os" && se.Sel.Name == "Stdout" {
+	ast.Inspect(n, func(x ast.Node) bool {
+		if se, ok := x.(*ast.SelectorExpr); ok {
+			if id, ok := se.X.(*ast.Ident); ok && id.Name == pkg && se.Sel.Name == sel {
 				found = true
 			}
 		}
 		return true
 	})
 	return found
+}
+
+// harmless: a call that cannot affect the hand-shake
+func (l *launchScan) harmless(name string, call *ast.CallExpr) bool {
+	if launchIgnoredExact[name] {
+		return true
+	}
+	for _, p := range launchIgnoredPrefix {
+		if strings.HasPrefix(name, p) {
+			return true
+		}
+	}
+	// err.Error(), x.String(): value methods used to build messages
+	if strings.HasSuffix(name, ".Error") || strings.HasSuffix(name, ".String") {
+		return len(call.Args) == 0
+	}
+	// methods of package-level sync/atomic counters: launches.Add(1)
+	if i := strings.Index(name, "."); i > 0 && l.atomicVars[name[:i]] {
+		return true
+	}
+	return false
 }
 
 // calls classifies every call inside an expression, in source order (closures are not entered).
@@ -122,48 +169,42 @@ func (l *launchScan) calls(e ast.Node) {
 		case *ast.FuncLit:
 			l.unknown(t, "function literal outside a go statement")
 			return false
+		case *ast.UnaryExpr:
+			if t.Op == token.ARROW {
+				l.unknown(t, "channel receive outside the select: <-"+callName(t.X))
+				return false
+			}
+			return true
 		case *ast.CallExpr:
 			name := callName(t.Fun)
 			switch {
 			case name == "signal.Notify":
-				ch := ""
-				if len(t.Args) > 0 {
-					if id, ok := t.Args[0].(*ast.Ident); ok {
-						ch = id.Name
-					}
-				}
-				l.notifyChan = ch
-				for _, a := range t.Args[min(1, len(t.Args)):] {
-					l.notifySigs = append(l.notifySigs, sigName(a))
-				}
-				// os/signal never blocks when it delivers: the channel needs room for the signal
-				capExpr, known := l.chanCap[ch]
-				switch {
-				case ch == "" || !known:
-					l.unknown(t, "signal.Notify on a channel that is not made in launch")
-				case capExpr == "" || capExpr == "0":
-					l.acts = append(l.acts, "ANotifyUnbuffered")
-				default:
-					if n, err := strconv.Atoi(capExpr); err == nil && n >= 1 {
-						l.acts = append(l.acts, "ANotify")
-					} else {
-						l.unknown(t, "capacity of the signal.Notify channel is not a literal >= 1: "+capExpr)
-					}
-				}
+				l.notify(t)
+			case strings.HasSuffix(name, ".Start") && len(t.Args) == 0 && strings.Count(name, ".") == 1:
+				l.acts = append(l.acts, "AStart")
+				l.sawStart = true
+			case mentions(t, "os", "Stdout"):
+				// whatever is written to the launcher's stdout is the pid protocol
+				l.acts = append(l.acts, "AWritePid")
+				return false
 			case name == "verifPause":
-				if l.sawStart && len(t.Args) == 1 {
+				if l.sawStart && len(t.Args) == 1 && !l.has("ASpawnWait") && !l.has("ASelect") {
 					if bl, ok := t.Args[0].(*ast.BasicLit); ok && bl.Value == `"launch.afterStart"` {
 						l.hookAfterStart = true
 					}
 				}
-			case strings.HasSuffix(name, ".Start") && len(t.Args) == 0 && strings.Count(name, ".") == 1:
-				l.acts = append(l.acts, "AStart")
-				l.sawStart = true
-			case mentionsStdout(t) && (name == "binary.Write" || strings.HasPrefix(name, "os.Stdout.Write") || strings.HasPrefix(name, "fmt.Fprint")):
-				l.acts = append(l.acts, "AWritePid")
-				return false
-			case launchIgnored[name]:
+			case l.harmless(name, t):
+				l.ignored[name] = true
 			default:
+				if id, ok := t.Fun.(*ast.Ident); ok {
+					if fd := l.funcs[id.Name]; fd != nil {
+						for _, a := range t.Args {
+							l.calls(a)
+						}
+						l.inline(t, fd)
+						return false
+					}
+				}
 				l.unknown(t, "call "+name)
 			}
 			return true
@@ -172,17 +213,102 @@ func (l *launchScan) calls(e ast.Node) {
 	})
 }
 
-func containsWait(b *ast.BlockStmt) bool {
-	found := false
-	ast.Inspect(b, func(n ast.Node) bool {
-		if c, ok := n.(*ast.CallExpr); ok {
-			if se, ok := c.Fun.(*ast.SelectorExpr); ok && se.Sel.Name == "Wait" && len(c.Args) == 0 {
-				found = true
+func (l *launchScan) has(a string) bool {
+	for _, x := range l.acts {
+		if x == a {
+			return true
+		}
+	}
+	return false
+}
+
+func (l *launchScan) notify(t *ast.CallExpr) {
+	ch := ""
+	if len(t.Args) > 0 {
+		if id, ok := t.Args[0].(*ast.Ident); ok {
+			ch = l.canon(id.Name)
+		}
+	}
+	l.notifyChan, l.notifySeen = ch, true
+	for _, a := range t.Args[min(1, len(t.Args)):] {
+		l.notifySigs = append(l.notifySigs, sigName(a))
+	}
+	// os/signal never blocks when it delivers: the channel needs room for the signal
+	capExpr, known := l.chanCap[ch]
+	switch {
+	case ch == "" || !known:
+		l.unknown(t, "signal.Notify on a channel that is not made in launch")
+	case capExpr == "" || capExpr == "0":
+		l.acts = append(l.acts, "ANotifyUnbuffered")
+	default:
+		if n, err := strconv.Atoi(capExpr); err == nil && n >= 1 {
+			l.acts = append(l.acts, "ANotify")
+		} else {
+			l.unknown(t, "capacity of the signal.Notify channel is not a literal >= 1: "+capExpr)
+		}
+	}
+}
+
+// inline walks the body of a same-package function called from launch.
+func (l *launchScan) inline(call *ast.CallExpr, fd *ast.FuncDecl) {
+	for _, s := range l.stack {
+		if s == fd.Name.Name {
+			l.unknown(call, "recursive call of "+fd.Name.Name)
+			return
+		}
+	}
+	if len(l.stack) > 6 {
+		l.unknown(call, "call nesting too deep at "+fd.Name.Name)
+		return
+	}
+	ren := map[string]string{}
+	if fd.Type.Params != nil {
+		i := 0
+		for _, p := range fd.Type.Params.List {
+			for _, n := range p.Names {
+				if i < len(call.Args) {
+					if id, ok := call.Args[i].(*ast.Ident); ok {
+						ren[n.Name] = l.canon(id.Name)
+					}
+				}
+				i++
+			}
+		}
+	}
+	l.rename = append(l.rename, ren)
+	l.stack = append(l.stack, fd.Name.Name)
+	l.stmts(fd.Body.List, false)
+	l.stack = l.stack[:len(l.stack)-1]
+	l.rename = l.rename[:len(l.rename)-1]
+}
+
+// waiter: go func() { … x.Wait() … close(c) / c <- … }() — returns the channel it signals on
+func (l *launchScan) waiter(fl *ast.FuncLit) (string, bool) {
+	hasWait, ch := false, ""
+	ast.Inspect(fl.Body, func(n ast.Node) bool {
+		switch t := n.(type) {
+		case *ast.CallExpr:
+			name := callName(t.Fun)
+			switch {
+			case strings.HasSuffix(name, ".Wait") && len(t.Args) == 0:
+				hasWait = true
+			case name == "close" && len(t.Args) == 1:
+				if id, ok := t.Args[0].(*ast.Ident); ok {
+					ch = l.canon(id.Name)
+				}
+			case l.harmless(name, t):
+				l.ignored[name] = true
+			default:
+				l.unknown(t, "call "+name+" in the goroutine that waits for the daemon")
+			}
+		case *ast.SendStmt:
+			if id, ok := t.Chan.(*ast.Ident); ok {
+				ch = l.canon(id.Name)
 			}
 		}
 		return true
 	})
-	return found
+	return ch, hasWait
 }
 
 func (l *launchScan) stmts(list []ast.Stmt, top bool) {
@@ -191,38 +317,64 @@ func (l *launchScan) stmts(list []ast.Stmt, top bool) {
 	}
 }
 
+func (l *launchScan) noteAssign(lhs, rhs ast.Expr) {
+	id, isId := lhs.(*ast.Ident)
+	ce, isCall := rhs.(*ast.CallExpr)
+	if !isId || !isCall {
+		return
+	}
+	if fn, ok := ce.Fun.(*ast.Ident); ok && fn.Name == "make" && len(ce.Args) >= 1 {
+		if _, isChan := ce.Args[0].(*ast.ChanType); isChan {
+			c := ""
+			if len(ce.Args) >= 2 {
+				c = callName(ce.Args[1])
+				if bl, ok := ce.Args[1].(*ast.BasicLit); ok {
+					c = bl.Value
+				}
+			}
+			l.chanCap[l.canon(id.Name)] = c
+		}
+	}
+	if callName(ce.Fun) == "exec.Command" {
+		l.cmdVars[id.Name] = true
+	}
+}
+
 func (l *launchScan) stmt(s ast.Stmt, last, top bool) {
 	switch t := s.(type) {
 	case nil, *ast.EmptyStmt:
 	case *ast.AssignStmt:
 		if len(t.Lhs) == len(t.Rhs) {
-			for i, r := range t.Rhs {
-				id, isId := t.Lhs[i].(*ast.Ident)
-				ce, isCall := r.(*ast.CallExpr)
-				if !isId || !isCall {
-					continue
-				}
-				if fn, ok := ce.Fun.(*ast.Ident); ok && fn.Name == "make" && len(ce.Args) >= 1 {
-					if _, isChan := ce.Args[0].(*ast.ChanType); isChan {
-						c := ""
-						if len(ce.Args) >= 2 {
-							c = callName(ce.Args[1])
-							if bl, ok := ce.Args[1].(*ast.BasicLit); ok {
-								c = bl.Value
-							}
-						}
-						l.chanCap[id.Name] = c
-					}
-				}
+			for i := range t.Rhs {
+				l.noteAssign(t.Lhs[i], t.Rhs[i])
 			}
 		}
 		for _, r := range t.Rhs {
 			l.calls(r)
 		}
 		for _, x := range t.Lhs {
+			// cmd.Stdout / cmd.Stderr / cmd.SysProcAttr … of the daemon's command change what the daemon inherits
+			if se, ok := x.(*ast.SelectorExpr); ok {
+				if id, ok := se.X.(*ast.Ident); ok && l.cmdVars[id.Name] {
+					switch se.Sel.Name {
+					case "Env", "Dir", "Args":
+					default:
+						l.unknown(x, "field "+se.Sel.Name+" of the daemon's exec.Cmd is set")
+					}
+				}
+			}
 			l.calls(x)
 		}
 	case *ast.DeclStmt:
+		if gd, ok := t.Decl.(*ast.GenDecl); ok {
+			for _, sp := range gd.Specs {
+				if vs, ok := sp.(*ast.ValueSpec); ok && len(vs.Names) == len(vs.Values) {
+					for i := range vs.Values {
+						l.noteAssign(vs.Names[i], vs.Values[i])
+					}
+				}
+			}
+		}
 		l.calls(t)
 	case *ast.ExprStmt:
 		l.calls(t.X)
@@ -242,23 +394,18 @@ func (l *launchScan) stmt(s ast.Stmt, last, top bool) {
 		}
 		l.unknown(t, "defer "+name)
 	case *ast.GoStmt:
-		if fl, ok := t.Call.Fun.(*ast.FuncLit); ok && containsWait(fl.Body) {
-			l.acts = append(l.acts, "ASpawnWait")
-			ast.Inspect(fl.Body, func(n ast.Node) bool {
-				if c, ok := n.(*ast.CallExpr); ok {
-					if fn, ok := c.Fun.(*ast.Ident); ok && fn.Name == "close" && len(c.Args) == 1 {
-						if id, ok := c.Args[0].(*ast.Ident); ok {
-							l.finishedChan = id.Name
-						}
-					}
-				}
-				return true
-			})
-			return
+		if fl, ok := t.Call.Fun.(*ast.FuncLit); ok {
+			if ch, ok := l.waiter(fl); ok {
+				l.acts = append(l.acts, "ASpawnWait")
+				l.finishedChan = ch
+				return
+			}
 		}
 		l.unknown(t, "go "+callName(t.Call.Fun))
+	case *ast.SendStmt:
+		l.unknown(t, "channel send outside the waiting goroutine")
 	case *ast.SelectStmt:
-		// every case must wait on the Notify channel or on the channel the waiting goroutine closes; anything
+		// every case must wait on the Notify channel or on the channel the waiting goroutine signals on; anything
 		// else (a timer, a default case, a send) lets the launcher leave before Done()
 		chans := []string{}
 		bad := false
@@ -281,7 +428,7 @@ func (l *launchScan) stmt(s ast.Stmt, last, top bool) {
 			name := ""
 			if u, ok := e.(*ast.UnaryExpr); ok && u.Op == token.ARROW {
 				if id, ok := u.X.(*ast.Ident); ok {
-					name = id.Name
+					name = l.canon(id.Name)
 				} else {
 					l.unknown(cc, "select case <-"+callName(u.X))
 					bad = true
@@ -300,10 +447,10 @@ func (l *launchScan) stmt(s ast.Stmt, last, top bool) {
 		if !bad {
 			l.acts = append(l.acts, "ASelect?"+strings.Join(chans, ","))
 		}
-		if !top {
-			l.unknown(t, "select inside a branch")
-		}
 	case *ast.ReturnStmt:
+		for _, r := range t.Results {
+			l.calls(r)
+		}
 		if top && !last {
 			l.unknown(t, "return before the end of launch")
 		}
@@ -312,33 +459,43 @@ func (l *launchScan) stmt(s ast.Stmt, last, top bool) {
 	}
 }
 
-func keys(m map[string]bool) []string {
-	var r []string
-	for k := range m {
-		r = append(r, k)
-	}
-	return r
-}
-
 func cmdLaunch(repo string) error {
 	fset := token.NewFileSet()
-	path := filepath.Join(repo, "daemon", "daemon.go")
-	f, err := parser.ParseFile(fset, path, nil, parser.SkipObjectResolution)
+	dir := filepath.Join(repo, "daemon")
+	files, err := parsePackageDir(fset, dir)
 	if err != nil {
 		return err
 	}
-	var fd *ast.FuncDecl
-	for _, d := range f.Decls {
-		if x, ok := d.(*ast.FuncDecl); ok && x.Recv == nil && x.Name.Name == "launch" && x.Body != nil {
-			fd = x
+	l := &launchScan{fset: fset, funcs: map[string]*ast.FuncDecl{}, atomicVars: map[string]bool{}, ignored: map[string]bool{},
+		chanCap: map[string]string{}, cmdVars: map[string]bool{}}
+	for _, f := range files {
+		for _, d := range f.Decls {
+			switch x := d.(type) {
+			case *ast.FuncDecl:
+				if x.Recv == nil && x.Body != nil {
+					l.funcs[x.Name.Name] = x
+				}
+			case *ast.GenDecl:
+				if x.Tok == token.VAR {
+					for _, sp := range x.Specs {
+						if vs, ok := sp.(*ast.ValueSpec); ok && vs.Type != nil && strings.HasPrefix(strings.TrimPrefix(typeString(vs.Type), "*"), "atomic.") {
+							for _, n := range vs.Names {
+								l.atomicVars[n.Name] = true
+							}
+						}
+					}
+				}
+			}
 		}
 	}
-	fmt.Printf("(* glbfacts launch: order of the launcher's actions in daemon/daemon.go func launch *)\n")
+	fmt.Printf("(* glbfacts launch: order of the launcher's actions in package daemon, func launch *)\n")
+	fd := l.funcs["launch"]
 	if fd == nil {
-		fmt.Printf("[AUnknown %s]\n", coqString("func launch not found in daemon/daemon.go"))
+		fmt.Printf("(* hook launch.afterStart: MISSING *)\n")
+		fmt.Printf("[AUnknown %s]\n", coqString("func launch not found in package daemon"))
 		return nil
 	}
-	l := &launchScan{fset: fset, chanCap: map[string]string{}}
+	l.stack = []string{"launch"}
 	l.stmts(fd.Body.List, true)
 	// resolve the selects: their channels must be the Notify channel and (optionally) the waiter's channel
 	for i, a := range l.acts {
@@ -356,7 +513,7 @@ func cmdLaunch(repo string) error {
 			}
 			switch {
 			case other != "":
-				l.acts[i] = "AUnknown " + coqString("select case <-"+other+": neither the signal.Notify channel nor the channel closed after cmd.Wait()")
+				l.acts[i] = "AUnknown " + coqString("select case <-"+other+": neither the signal.Notify channel nor the channel the waiting goroutine signals on")
 			case !hasNotify:
 				l.acts[i] = "AUnknown " + coqString("select does not receive from the channel given to signal.Notify")
 			default:
@@ -364,32 +521,30 @@ func cmdLaunch(repo string) error {
 			}
 		}
 	}
-	// Done(): which signal, to whom
+	// Done(): which signal, to whom (any file of the package)
 	doneSig, donePpid := "", false
-	for _, d := range f.Decls {
-		if x, ok := d.(*ast.FuncDecl); ok && x.Recv == nil && x.Name.Name == "Done" && x.Body != nil {
-			ast.Inspect(x.Body, func(n ast.Node) bool {
-				if c, ok := n.(*ast.CallExpr); ok {
-					name := callName(c.Fun)
-					if strings.HasSuffix(name, ".Signal") && len(c.Args) == 1 {
-						doneSig = sigName(c.Args[0])
-					}
-					if (name == "syscall.Kill" || name == "unix.Kill") && len(c.Args) == 2 {
-						doneSig = sigName(c.Args[1])
-					}
-					if name == "os.Getppid" || name == "syscall.Getppid" {
-						donePpid = true
-					}
+	if x := l.funcs["Done"]; x != nil {
+		ast.Inspect(x.Body, func(n ast.Node) bool {
+			if c, ok := n.(*ast.CallExpr); ok {
+				name := callName(c.Fun)
+				if strings.HasSuffix(name, ".Signal") && len(c.Args) == 1 {
+					doneSig = sigName(c.Args[0])
 				}
-				return true
-			})
-		}
+				if (name == "syscall.Kill" || name == "unix.Kill") && len(c.Args) == 2 {
+					doneSig = sigName(c.Args[1])
+				}
+				if name == "os.Getppid" || name == "syscall.Getppid" {
+					donePpid = true
+				}
+			}
+			return true
+		})
 	}
 	switch {
 	case doneSig == "" || !donePpid:
 		l.acts = append(l.acts, "AUnknown "+coqString("func Done: no signal sent to os.Getppid() recognised"))
 	case doneSig != "SIGINT":
-		// the model's Done() sends SIGINT; any other catchable signal would need its own reading
+		// the model's Done() sends SIGINT; any other signal would need its own reading
 		l.acts = append(l.acts, "AUnknown "+coqString("func Done sends "+doneSig+", not SIGINT"))
 	default:
 		listens := len(l.notifySigs) == 0
@@ -398,7 +553,7 @@ func cmdLaunch(repo string) error {
 				listens = true
 			}
 		}
-		if !listens && l.notifyChan != "" {
+		if !listens && l.notifySeen {
 			l.acts = append(l.acts, "AUnknown "+coqString("signal.Notify listens for "+strings.Join(l.notifySigs, ",")+" but Done() sends "+doneSig))
 		}
 	}
@@ -418,6 +573,12 @@ func cmdLaunch(repo string) error {
 		hook = "present"
 	}
 	fmt.Printf("(* hook launch.afterStart: %s *)\n", hook)
+	var ign []string
+	for k := range l.ignored {
+		ign = append(ign, k)
+	}
+	sort.Strings(ign)
+	fmt.Printf("(* not actions (cannot affect the hand-shake): %s *)\n", commentSafe(strings.Join(ign, ", ")))
 	fmt.Printf("[%s]\n", strings.Join(l.acts, "; "))
 	return nil
 }
